@@ -385,6 +385,10 @@ Definition mev_eqb (a b : mev) : bool :=
 Definition replay_trace (progs : nat -> list op) (tr : list (nat * mch * mev)) : option mstate + nat :=
   replay (sys progs) mev_eqb (minit progs) tr.
 
+(* the same strict replay from an arbitrary state (the driver checks long traces chunk by chunk) *)
+Definition replay_from (progs : nat -> list op) (s : mstate) (tr : list (nat * mch * mev)) : option mstate + nat :=
+  replay (sys progs) mev_eqb s tr.
+
 (* what the model would emit (for the driver's diagnostics) *)
 Definition peek (s : mstate) (t : nat) (c : mch) : option mev :=
   match mstep s t c with Some (_, e) => Some e | None => None end.
